@@ -398,4 +398,25 @@ theorem cancelBox_gone (r : Run) (m : Nat) (b : Box) (hf : Fresh r.w) (hb : boxG
   have : m ∈ keys r.w.boxes := (boxGet_isSome_iff _ _).mp (by rw [hb]; rfl)
   exact hf m this
 
+-- ------------------------------------------------------- worker op sequences
+/-- operations of one worker: an incoming message, or one iteration of its main loop -/
+inductive WOp where
+  | recv (m : Msg)
+  | step
+
+def Worker.applyOp (tbl : Table) (w : Worker) : WOp → Worker
+  | .recv m => w.recv m
+  | .step => (w.step tbl).w
+
+theorem applyOp_mono (tbl : Table) (w : Worker) (op : WOp) : Mono w (w.applyOp tbl op) := by
+  cases op with
+  | recv m => exact recv_mono w m
+  | step => exact step_mono tbl w
+
+theorem run_mono (tbl : Table) (w : Worker) (ops : List WOp) :
+    Mono w (ops.foldl (Worker.applyOp tbl) w) := by
+  induction ops generalizing w with
+  | nil => exact Mono.refl w
+  | cons op ops ih => exact (applyOp_mono tbl w op).trans (ih _)
+
 end BqVerif.Runtime
